@@ -90,4 +90,48 @@ theorem store_key_of_cell {ls bw cnt : Nat} {act : List (Nat × Nat)} {data : Na
   rw [hk, hc]
   exact (lineOf_add ls x.addr b hls (by omega)).symm
 
+/-! dirty masks -/
+
+theorem lastW_foldl_some (ws : List Wr) (c : Nat × Nat) : ∀ (acc : Option Nat) (v : Nat),
+    ws.foldl (fun acc w => if c = w.cell then some w.val else acc) acc = some v →
+    acc = some v ∨ ∃ w ∈ ws, w.cell = c := by
+  induction ws with
+  | nil => intro acc v h; exact Or.inl h
+  | cons w ws ih =>
+    intro acc v h
+    simp only [List.foldl_cons] at h
+    rcases ih _ v h with h' | ⟨w', hw', hc⟩
+    · by_cases hcw : c = w.cell
+      · exact Or.inr ⟨w, List.mem_cons_self .., hcw.symm⟩
+      · rw [if_neg hcw] at h'; exact Or.inl h'
+    · exact Or.inr ⟨w', List.mem_cons_of_mem _ hw', hc⟩
+
+theorem lastW_some_mem (ws : List Wr) (c : Nat × Nat) (v : Nat) (h : lastW ws c = some v) :
+    ∃ w ∈ ws, w.cell = c := by
+  rcases lastW_foldl_some ws c none v h with h' | h'
+  · cases h'
+  · exact h'
+
+theorem lastW_foldl_isSome (ws : List Wr) (c : Nat × Nat) : ∀ (acc : Option Nat),
+    (acc.isSome = true ∨ ∃ w ∈ ws, w.cell = c) →
+    (ws.foldl (fun acc w => if c = w.cell then some w.val else acc) acc).isSome = true := by
+  induction ws with
+  | nil =>
+    intro acc h
+    rcases h with h | ⟨w, hw, _⟩
+    · exact h
+    · simp at hw
+  | cons w ws ih =>
+    intro acc h
+    simp only [List.foldl_cons]
+    apply ih
+    by_cases hcw : c = w.cell
+    · exact Or.inl (by simp [hcw])
+    · rw [if_neg hcw]
+      rcases h with h | ⟨w', hw', hc⟩
+      · exact Or.inl h
+      · rcases List.mem_cons.mp hw' with rfl | hw''
+        · exact absurd hc.symm hcw
+        · exact Or.inr ⟨w', hw'', hc⟩
+
 end C02
